@@ -242,8 +242,81 @@ def drive(args):
             shutil.rmtree(work, ignore_errors=True)
         r['layout'] = {'kind': 'with_another_parameter_set', 'a': 1, 'b': 0, 'parts': 2}
         runs.append(r)
-    return {'kind': 'planted', 'case': c, 'counts': counts, 'runs': runs,
-            '_cost': 5 * len(runs)}
+    rec = {'kind': 'planted', 'case': c, 'counts': counts, 'runs': runs,
+           '_cost': 5 * len(runs)}
+    if comp is not None:
+        return [rec] + sector_records(idx, item, workroot)
+    return [rec]
+
+
+def counts_at(c, pth, ps):
+    """n * (A + B x + C x^2) per (distance, rate) for a threshold pth (a float)."""
+    nu = c['nu'] / 100
+    A, B, C = c['A'] / 100, c['B'] / 100, c['C'] / 100
+    return [[int(round(c['n'] * (A + B * ((p - pth) * d ** nu) + C * ((p - pth) * d ** nu) ** 2)))
+             for p in ps] for d in c['ds']]
+
+
+def sector_records(idx, item, workroot):
+    """X and Z logical failures planted on the ansatz with DIFFERENT thresholds
+    (biased noise: the two error types cross at different rates): the thresholds
+    reported per sector (Analysis.sector_thresholds) must be the planted ones."""
+    from panqec.analysis import Analysis
+    c = item['case']
+    offs = sorted(c['offs'])
+    ps = [round(c['pth'] * (1000 + off) / 1e7, 9) for off in c['offs']]
+    pth_x = c['pth'] / 1e4
+    pth_z = c['pth'] * (1000 + offs[len(offs) // 2 + 1]) / 1e7      # a data rate right of centre
+    cx, cz = counts_at(c, pth_x, ps), counts_at(c, pth_z, ps)
+    n = c['n']
+    work = os.path.join(workroot, f'c{idx}_sector')
+    recs_ = []
+    for j, d in enumerate(c['ds']):
+        for m, off in enumerate(c['offs']):
+            inputs, width = sim_inputs(c['family'], d, ps[m], (0.1, 0.1, 0.8))
+            if width != 2 or not (0 <= cx[j][m] <= n and 0 <= cz[j][m] <= n):
+                return []
+            nx, nz = cx[j][m], cz[j][m]
+            ee = [[int(t < nx), int(t >= n - nz)] for t in range(n)]
+            recs_.append({'results': {'n_runs': n, 'wall_time': 0.001 * n, 'effective_error': ee,
+                                      'success': [not (a or b) for a, b in ee], 'codespace': [True] * n},
+                          'inputs': inputs})
+    rng = np.random.default_rng(idx)
+    recs_ = [recs_[i] for i in rng.permutation(len(recs_))]
+    out = []
+    try:
+        write_gz(os.path.join(work, 'results.json.gz'), recs_)
+        rows = {}
+        raised = ''
+        try:
+            with contextlib.redirect_stdout(io.StringIO()), warnings.catch_warnings():
+                warnings.simplefilter('ignore')
+                an = Analysis(work, verbose=False)
+                st_ = an.sector_thresholds
+                for sec in ('X', 'Z'):
+                    th = st_[sec]
+                    if len(th) != 1:
+                        raised = f'{len(th)} threshold rows for sector {sec}'
+                    else:
+                        rows[sec] = th.iloc[0]
+        except Exception as ex:
+            raised = f'{type(ex).__name__}: {str(ex)[:100]}'
+        for sec, pth in (('X', pth_x), ('Z', pth_z)):
+            run_ = {'raised': raised, 'mode': 'all', 'layout': {'kind': 'sector_' + sec}}
+            if not raised:
+                r = rows[sec]
+                run_.update(th=to_int(r['p_th_fss']), left=to_int(r['p_th_fss_left']),
+                            right=to_int(r['p_th_fss_right']), se=to_int(r['p_th_fss_se']),
+                            pl=to_int(r['p_left']), pr=to_int(r['p_right']),
+                            status=str(r['fit_status']), found=bool(r['fit_found']))
+            else:
+                run_.update(th=NAN, left=NAN, right=NAN, se=NAN, pl=NAN, pr=NAN, status='', found=False)
+            out.append({'kind': 'sector', 'sector': sec, 'case': c, 'planted': int(round(pth * 1e6)),
+                        'onepct': int(round(pth * 1e4)), 'pmin': int(round(min(ps) * 1e6)),
+                        'pmax': int(round(max(ps) * 1e6)), 'runs': [run_], '_cost': 5})
+    finally:
+        shutil.rmtree(work, ignore_errors=True)
+    return out
 
 
 def status_records(entries):
@@ -317,13 +390,8 @@ def run(tier):
         else:
             pick = layouts
         jobs.append((j, it, pick, wroot))
-    recs = common.pmap(drive, jobs, procs=16)
+    recs = [r for rs in common.pmap(drive, jobs, procs=16) for r in rs]
     common.cleanup(wroot)
-    for it, r in zip(cases, recs):
-        if it['counts'] and it['counts'] != r['counts']:
-            # the harness' float evaluation of the ansatz vs TLC's integers is
-            # judged by TLC below (tolerance 4 counts); nothing to do here
-            pass
     srecs = status_records(entries if tier != 'quick' else entries[::3])
     allrecs = recs + srecs
     for j, r in enumerate(allrecs):
@@ -335,7 +403,11 @@ def run(tier):
         cl = sorted(rejects[r['id']])
         if any(c.startswith('MACHINERY') for c in cl):
             raise common.MachineryError(f'planted data off the ansatz: {r["case"]}')
-        if r['kind'] == 'planted':
+        if r['kind'] == 'sector':
+            c = r['case']
+            v.reject(f"C16:sector-threshold:{c['family']}:nu={c['nu']}:{cl[0]}",
+                     {'case': c, 'sector': r['sector'], 'planted': r['planted'], 'failed': cl, 'runs': r['runs']})
+        elif r['kind'] == 'planted':
             c = r['case']
             bad_layouts = sorted({x['layout']['kind'] for x in r['runs']
                                   if x['raised'] or x['status'] != 'success'}) or ['all']
